@@ -87,6 +87,28 @@ Definition enabled (st : state) (e : event) : Prop :=
   | Obt o => ~ is_waiting st t /\ In o (published st)
   end.
 
+(* boolean version of [enabled] (for concrete example traces) *)
+Definition waitsb (st : state) (t : tid) : bool := existsb (fun w : tid * lock * mode => N.eqb (fst (fst w)) t) (waiting st).
+Definition enabledb (st : state) (e : event) : bool :=
+  let (t, a) := e in
+  match a with
+  | Req _ _ => negb (waitsb st t)
+  | Acq l m => existsb (fun w : tid * lock * mode => N.eqb (fst (fst w)) t && lock_eqb (snd (fst w)) l && mode_eqb (snd w) m) (waiting st)
+               && forallb (fun h : lock * tid * mode => negb (lock_eqb (fst (fst h)) l && conflictb m (snd h))) (held st)
+               && negb (existsb (fun h : lock * tid * mode => lock_eqb (fst (fst h)) l && N.eqb (snd (fst h)) t) (held st))
+  | Rel l m => negb (waitsb st t)
+               && existsb (fun h : lock * tid * mode => lock_eqb (fst (fst h)) l && N.eqb (snd (fst h)) t && mode_eqb (snd h) m) (held st)
+  | Acc _ _ _ _ _ => negb (waitsb st t)
+  | Pub _ => negb (waitsb st t)
+  | Obt o => negb (waitsb st t) && memN o (published st)
+  end.
+Fixpoint validb_from (st : state) (tr : list event) : bool :=
+  match tr with
+  | [] => true
+  | e :: r => enabledb st e && validb_from (apply st e) r
+  end.
+Definition validb (tr : list event) : bool := validb_from init tr.
+
 Definition run (tr : list event) : state := fold_left apply tr init.
 Definition st_at (tr : list event) (n : nat) : state := run (firstn n tr).
 
@@ -192,15 +214,17 @@ Definition protected (tr : list event) (i j : nat) : Prop :=
 
 (* ---- the static tables (shape of Gen/GenLocks.v) ---- *)
 
-(* (row id, field id, accessor id, write?, atomic?, before publication?, must-held [(class, write mode?)]) *)
-Definition row := (N * N * N * bool * bool * bool * list (N * bool))%type.
-Definition r_id (r : row) : N := let '(i, _, _, _, _, _, _) := r in i.
-Definition r_field (r : row) : N := let '(_, f, _, _, _, _, _) := r in f.
-Definition r_func (r : row) : N := let '(_, _, g, _, _, _, _) := r in g.
-Definition r_write (r : row) : bool := let '(_, _, _, w, _, _, _) := r in w.
-Definition r_atomic (r : row) : bool := let '(_, _, _, _, a, _, _) := r in a.
-Definition r_prepub (r : row) : bool := let '(_, _, _, _, _, p, _) := r in p.
-Definition r_held (r : row) : list (N * bool) := let '(_, _, _, _, _, _, h) := r in h.
+(* (row id, field id, accessor id, write?, atomic?, before publication?,
+    struct embedding the accessed object (0 = unknown), must-held [(class, write mode?)]) *)
+Definition row := (N * N * N * bool * bool * bool * N * list (N * bool))%type.
+Definition r_id (r : row) : N := let '(i, _, _, _, _, _, _, _) := r in i.
+Definition r_field (r : row) : N := let '(_, f, _, _, _, _, _, _) := r in f.
+Definition r_func (r : row) : N := let '(_, _, g, _, _, _, _, _) := r in g.
+Definition r_write (r : row) : bool := let '(_, _, _, w, _, _, _, _) := r in w.
+Definition r_atomic (r : row) : bool := let '(_, _, _, _, a, _, _, _) := r in a.
+Definition r_prepub (r : row) : bool := let '(_, _, _, _, _, p, _, _) := r in p.
+Definition r_variant (r : row) : N := let '(_, _, _, _, _, _, v, _) := r in v.
+Definition r_held (r : row) : list (N * bool) := let '(_, _, _, _, _, _, _, h) := r in h.
 
 Record tables := mkTables {
   t_classes : list (N * string * N * bool);   (* id, name, owner struct (0 = package level), rw *)
@@ -238,8 +262,14 @@ Definition common_guard (T : tables) (f : fld) (h1 h2 : list (N * bool)) : bool 
     usable T f (fst e1) &&
     existsb (fun e2 : N * bool => N.eqb (fst e1) (fst e2) && (snd e1 || snd e2)) h2) h1.
 
+(* rows about objects embedded in different kinds of outer object (a Device inside a
+   DeviceLocal / inside a DeviceRemote) never touch the same object *)
+Definition same_variant (r1 r2 : row) : bool :=
+  N.eqb (r_variant r1) 0 || N.eqb (r_variant r2) 0 || N.eqb (r_variant r1) (r_variant r2).
+
 Definition rows_conflict (r1 r2 : row) : bool :=
-  N.eqb (r_field r1) (r_field r2) && (r_write r1 || r_write r2) && negb (r_atomic r1 && r_atomic r2).
+  N.eqb (r_field r1) (r_field r2) && (r_write r1 || r_write r2) && negb (r_atomic r1 && r_atomic r2)
+  && same_variant r1 r2.
 
 Definition pair_consistent (T : tables) (r1 r2 : row) : bool :=
   negb (rows_conflict r1 r2) || r_prepub r1 || r_prepub r2 || common_guard T (r_field r1) (r_held r1) (r_held r2).
@@ -269,11 +299,14 @@ Definition holds_atleast (st : state) (t : tid) (l : lock) (wmode : bool) : Prop
   holds st t l MW \/ (wmode = false /\ holds st t l MR).
 
 (* the tie assumed between a trace and the static table: every access event is an
-   instance of the table row it is labelled with, and the thread really holds the
-   (usable) locks the row lists, on the instance that belongs to the accessed object *)
-Definition conforms (T : tables) (tr : list event) : Prop :=
+   instance of the table row it is labelled with, the accessed object is embedded in the
+   kind of outer object the row says ([kind o]: each embedded object belongs to exactly one
+   outer object), and the thread really holds the (usable) locks the row lists, on the
+   instance that belongs to the accessed object *)
+Definition conforms (T : tables) (kind : obj -> N) (tr : list event) : Prop :=
   forall i t x w a p s, nth_error tr i = Some (t, Acc x w a p s) ->
     exists r, In r (t_rows T) /\ r_id r = s /\ r_field r = snd x /\ r_write r = w /\ r_atomic r = a /\ r_prepub r = p
+      /\ (r_variant r <> 0%N -> kind (fst x) = r_variant r)
       /\ forall c wm, In (c, wm) (r_held r) -> usable T (snd x) c = true ->
            holds_atleast (st_at tr i) t (lock_inst T x c) wm.
 
